@@ -1,5 +1,10 @@
 package main
 
+import (
+	"encoding/base64"
+	"strings"
+)
+
 // encoding/base64: EncodeToString is an uninterpreted injective function enc(bytes);
 // DecodeString(s) succeeds with b iff s == enc(b) for the canonical spelling. The
 // non-canonical spellings Go's non-strict decoder also accepts are the subject of the
@@ -15,8 +20,29 @@ func (w *Worker) bytesAsStr(s *State, v Value) StrV {
 
 func init() {
 	I := intrinsics
+	encOf := func(c *icall) *base64.Encoding {
+		if p, ok := c.args[0].(PtrV); ok && p.Obj != 0 {
+			if o, ok := c.s.Heap[p.Obj].(OpaqueObj); ok {
+				switch {
+				case strings.HasSuffix(o.ID, "RawURLEncoding"):
+					return base64.RawURLEncoding
+				case strings.HasSuffix(o.ID, "RawStdEncoding"):
+					return base64.RawStdEncoding
+				case strings.HasSuffix(o.ID, "URLEncoding"):
+					return base64.URLEncoding
+				case strings.HasSuffix(o.ID, "StdEncoding"):
+					return base64.StdEncoding
+				}
+			}
+		}
+		return nil
+	}
 	enc := func(c *icall) ([]*State, bool) {
 		b := c.w.bytesAsStr(c.s, c.args[1])
+		if e := encOf(c); e != nil && b.K == SLit {
+			c.set(litStr(e.EncodeToString([]byte(b.S))))
+			return nil, false
+		}
 		e := c.w.applyUF(c.s, "b64enc", []Value{b}, "String", "string")
 		// dec(enc(b)) = b
 		d := c.w.applyUF(c.s, "b64dec", []Value{opaqueStr(e)}, "String", "string")
@@ -28,6 +54,15 @@ func init() {
 	}
 	dec := func(c *icall) ([]*State, bool) {
 		sv := c.str(1)
+		if e := encOf(c); e != nil && sv.K == SLit {
+			b, err := e.DecodeString(sv.S)
+			if err != nil {
+				c.setTuple(SliceV{}, c.opaqueErr(litStr(err.Error())))
+			} else {
+				c.setTuple(c.w.bytesOfString(c.s, litStr(string(b))), IfaceV{})
+			}
+			return nil, false
+		}
 		ok := c.w.applyUF(c.s, "b64ok", []Value{sv}, "Bool", "bool")
 		d := c.w.applyUF(c.s, "b64dec", []Value{sv}, "String", "string")
 		depth := len(c.s.stack())
